@@ -920,7 +920,9 @@ impl World {
             }
         }
         // anything still blocked now is blocked for ever: nobody is left to release it
-        std::thread::sleep(Duration::from_millis(30));
+        if self.clients.iter().any(|c| c.cur.is_some() && matches!(c.actor.state(), St::Blocked(_))) {
+            std::thread::sleep(Duration::from_millis(30));
+        }
         self.settle_others();
         for c in 0..self.clients.len() {
             if self.clients[c].cur.is_some() {
